@@ -829,6 +829,35 @@ pub fn seek_terminal(start: &Pos, sels: &[u16]) -> Pos {
     p
 }
 
+/// One ply before the end of a greedy terminal-seeking walk: if the walk ended in mate or
+/// stalemate, the position returned has a mating / stalemating move available.
+pub fn pre_terminal() -> BoxedStrategy<String> {
+    (
+        prop_oneof![
+            3 => cage_theme().prop_map(|r| build(&r)),
+            2 => endgame(3).prop_map(|r| build(&r)),
+            1 => placement(8).prop_map(|r| build(&r)),
+        ],
+        prop::collection::vec(any::<u16>(), 1..7),
+    )
+        .prop_map(|(p, sels)| {
+            let mut prev = p.clone();
+            let mut cur = p;
+            for i in 0..sels.len() {
+                if cur.legal_moves().is_empty() {
+                    break;
+                }
+                let next = seek_terminal(&cur, &sels[i..i + 1]);
+                prev = cur;
+                cur = next;
+            }
+            let mut q = if cur.legal_moves().is_empty() { prev } else { cur };
+            q.half = 0;
+            q.fen()
+        })
+        .boxed()
+}
+
 /// Positions that are checkmate or stalemate far more often than any placement: a cage or
 /// few-piece set-up followed by a greedy walk that shrinks the opponent's options.
 pub fn terminal_biased() -> BoxedStrategy<String> {
